@@ -29,6 +29,14 @@ def run(sh):
     engine_line.run_profile(sh, 'C02', 'general', n // 2, MONITORS, nontrivial)
     engine_line.run_profile(sh, 'C02', 'faults', n // 4, MONITORS, nontrivial)
     engine_line.run_profile(sh, 'C02', 'routing', n // 4, MONITORS, nontrivial)
+    # operating schedules that list the sources too (their block_input is closed and reopened while a finished part
+    # waits in them, in front of slow or blocked stations)
+    engine_line.run_profile(sh, 'C02', 'general', n // 4, MONITORS, nontrivial, prefix='blocked_sources_',
+                            overrides={'p_block_source': 0.8}, tag='blocksrc')
+    # queue-heavy lines with rework loops made of pass-through devices only (buffer -> gate -> the same buffer): a part
+    # re-enters the buffer it is leaving within one hand-over
+    engine_line.run_profile(sh, 'C02', 'buffers', n // 4, MONITORS, nontrivial, prefix='rework_loops_',
+                            overrides={'stage_w': {'buffer': 5, 'rework': 4, 'processor': 2, 'handler': 2}}, tag='rework')
     # user code (a gate's decider) failing in the middle of a multi-part release; the caller carries on
     from .. import core, modelgen
     pol = ['prng', 'fifo', 'lifo', 'const']
